@@ -1,6 +1,7 @@
 package j5convert
 
 import (
+	"fmt"
 	"strings"
 
 	"github.com/iancoleman/strcase"
@@ -9,6 +10,7 @@ import (
 	"github.com/pentops/j5/gen/j5/ext/v1/ext_j5pb"
 	"github.com/pentops/j5/gen/j5/list/v1/list_j5pb"
 	"github.com/pentops/j5/gen/j5/schema/v1/schema_j5pb"
+	"github.com/pentops/j5/gen/j5/sourcedef/v1/sourcedef_j5pb"
 	"github.com/pentops/j5/internal/j5s/sourcewalk"
 	"google.golang.org/genproto/googleapis/api/annotations"
 	"google.golang.org/protobuf/proto"
@@ -83,6 +85,10 @@ func (ww *conversionVisitor) visitServiceMethodNode(service *serviceBuilder, nod
 	if method.Request == nil {
 		ww.addErrorf(node.Source, "missing input")
 		return
+	}
+
+	if err := ww.checkListMethod(method); err != nil {
+		ww.addError(node.Source, err)
 	}
 
 	methodBuilder.desc.InputType = gl.Ptr(node.InputType)
@@ -163,4 +169,43 @@ func (ww *conversionVisitor) visitServiceMethodNode(service *serviceBuilder, nod
 		proto.SetExtension(methodBuilder.desc.Options, list_j5pb.E_ListRequest, method.ListRequest)
 	}
 	service.desc.Method = append(service.desc.Method, methodBuilder.desc)
+}
+
+// checkListMethod: a method whose request takes a j5.list.v1.QueryRequest is a
+// list method. Clients build its list request (filterable, sortable and
+// searchable fields) from the one array of objects in the response, so the
+// response must have exactly one array property, holding objects.
+func (ww *conversionVisitor) checkListMethod(method *sourcedef_j5pb.APIMethod) error {
+	isList := false
+	for _, prop := range method.Request.Properties {
+		ref := prop.GetSchema().GetObject().GetRef()
+		if ref == nil {
+			continue
+		}
+		typeRef, err := ww.root.resolveTypeNoImport(ref)
+		if err != nil {
+			// reported where the field is built
+			continue
+		}
+		if typeRef.Package == "j5.list.v1" && typeRef.Name == "QueryRequest" {
+			isList = true
+		}
+	}
+	if !isList {
+		return nil
+	}
+
+	if method.Response == nil {
+		return fmt.Errorf("list method %s: needs a response with one array of objects", method.Name)
+	}
+	var items []*schema_j5pb.Field
+	for _, prop := range method.Response.Properties {
+		if array := prop.GetSchema().GetArray(); array != nil {
+			items = append(items, array.Items)
+		}
+	}
+	if len(items) != 1 || items[0].GetObject() == nil {
+		return fmt.Errorf("list method %s: the response needs exactly one array property, of objects", method.Name)
+	}
+	return nil
 }
